@@ -2,6 +2,7 @@ package e2
 
 import (
 	"sort"
+	"syscall"
 	"bytes"
 	"fmt"
 	"os"
@@ -94,7 +95,38 @@ func RunPaths(t *testing.T, property, phase, testName string, n int, budget time
 				var buf bytes.Buffer
 				cmd.Stdout = &buf
 				cmd.Stderr = &buf
-				err := cmd.Run()
+				if err := cmd.Start(); err != nil {
+					parent.HarnessError("cannot start worker: %v", err)
+					return
+				}
+				// watchdog: a path that makes no progress for stallLimit of real time is a hang (a goroutine
+				// spinning or the process thrashing): dump the goroutines and move on after that path
+				done := make(chan struct{})
+				hung := false
+				go func() {
+					last, lastChange := "", time.Now()
+					for {
+						select {
+						case <-done:
+							return
+						case <-time.After(2 * time.Second):
+						}
+						b, _ := os.ReadFile(prog)
+						if string(b) != last {
+							last, lastChange = string(b), time.Now()
+							continue
+						}
+						if time.Since(lastChange) > stallLimit {
+							hung = true
+							cmd.Process.Signal(syscall.SIGQUIT)
+							time.Sleep(3 * time.Second)
+							cmd.Process.Kill()
+							return
+						}
+					}
+				}()
+				err := cmd.Wait()
+				close(done)
 				if err == nil {
 					continue
 				}
@@ -120,7 +152,12 @@ func RunPaths(t *testing.T, property, phase, testName string, n int, budget time
 					queue = append([]rng{{cur + 1, r.hi}}, queue...)
 				}
 				mu.Unlock()
-				sig := "process-crash"
+				sig := "process-crash:" + crashSite(tail)
+				if hung {
+					parent.Violate(vk.Violation{Sig: "path-hang:" + crashSite(buf.String()), Msg: fmt.Sprintf("path %d %v made no progress for %v of real time (a goroutine spinning, or the process thrashing); goroutine dump: %s", cur, describe(cur), stallLimit, tail),
+						Replay: map[string]any{"path": cur, "desc": describe(cur)}})
+					continue
+				}
 				if strings.Contains(tail, "blocked goroutines remain") || strings.Contains(tail, "deadlock: main bubble") {
 					parent.HarnessError("path %d (%v): bubble did not end cleanly: %s", cur, describe(cur), tail)
 					continue
@@ -177,6 +214,22 @@ func runChild(t *testing.T, property, phase, r string, run PathFunc) {
 	if err := rep.Write(); err != nil {
 		t.Fatal(err)
 	}
+}
+
+const stallLimit = 75 * time.Second
+
+// crashSite names the first frame of the trace that belongs to the broker or its codec library.
+func crashSite(trace string) string {
+	for _, line := range strings.Split(trace, "\n") {
+		line = strings.TrimSpace(line)
+		if (strings.HasPrefix(line, "github.com/vx-labs/") || strings.HasPrefix(line, "github.com/zond/")) && strings.Contains(line, "(") {
+			if i := strings.Index(line, "("); i > 0 {
+				line = line[:i]
+			}
+			return strings.TrimPrefix(line, "github.com/vx-labs/")
+		}
+	}
+	return "unknown"
 }
 
 // childStates collects world digests of this process for exact distinct-state counts across children.
